@@ -65,3 +65,37 @@ def enum_const_table(prog, fn, adt):
             val, at = first_value_after(fn, oth)
             out[rest[0]] = val
     return out
+
+
+CHAR_DOMAIN = list(range(0, 0x300)) + [0x20AC, 0x212A, 0xFF10, 0x1F600]
+
+
+def char_pred_set(prog, name, domain=None):
+    """{code points c of the finite domain | the char -> bool function / closure `name` returns true on c}, from its decision structure"""
+    from . import formula
+    f = prog.fns[name]
+    tree = formula.decision(f)
+    out = set()
+    for c in (domain or CHAR_DOMAIN):
+        env = {"args": {1: c, 2: c, "ch": c, "c": c}, "prog": prog}
+        lab = formula.eval_decision(tree, env)
+        v = formula.evaluate(lab, env) if lab is not None else None
+        if v in (1, True):
+            out.add(c)
+    return out
+
+
+def show_chars(cs):
+    """compact rendering of a set of code points as ranges"""
+    cs = sorted(cs)
+    out, i = [], 0
+    while i < len(cs):
+        j = i
+        while j + 1 < len(cs) and cs[j + 1] == cs[j] + 1:
+            j += 1
+        def r(c):
+            return chr(c) if 32 < c < 127 else "U+%04X" % c
+        out.append(r(cs[i]) if i == j else "%s-%s" % (r(cs[i]), r(cs[j])))
+        i = j + 1
+    return " ".join(out)
+
